@@ -42,7 +42,7 @@ package core
 //@   ensures[reuse] old(scancmatch(s, path, metadata)) ==> hresets[s.hasher] == old(hresets[s.hasher]) && ncopybuf == old(ncopybuf)
 //@   ensures[reuse] scanisfile(result0, result1) && old(scancmatch(s, path, metadata)) ==> scansameslice(result0.Digest, old(s.cache.Entries[path].Digest))
 //@   ensures[guard] scanisfile(result0, result1) && !old(scancmatch(s, path, metadata)) ==> hresets[s.hasher] == old(hresets[s.hasher]) + 1 && ncopybuf == old(ncopybuf) + 1
-//@   ensures[guard] scanisfile(result0, result1) && !old(scancmatch(s, path, metadata)) ==> base(result0.Digest) == 0 || sumsrc(base(result0.Digest)) == s.hasher
+//@   ensures[guard] scanisfile(result0, result1) && !old(scancmatch(s, path, metadata)) ==> base(result0.Digest) == sumbase[s.hasher] && off(result0.Digest) == sumoff[s.hasher] && len(result0.Digest) == sumlen[s.hasher]
 //@   ensures[hashed] scanisfile(result0, result1) && !old(scancmatch(s, path, metadata)) ==> copybufsrc == old(scanhfile(parent, metadata, file)) && copybufn == old(scanhmeta(s, path, parent, metadata, file)).Size
 //@   at call io.CopyBuffer assert[hashed] unboxptr(arg0, "stream.preemptableWriter") != nil && unboxptr(arg0, "stream.preemptableWriter").writer == s.hasher
 //@   ensures[entry] scanisfile(result0, result1) ==> has(s.newCache.Entries, path) && scansameslice(s.newCache.Entries[path].Digest, result0.Digest)
@@ -140,6 +140,7 @@ package core
 //@ ufunc scanlistpos(l int, n string) int
 //@ func (*scanner).directory
 //@   at call (*Directory).ReadContents assume result1 == nil ==> forall i in 0..len(result0) :: scanlistpos(base(result0), result0[i].Name) == i
+//@   loop 1 invariant[nooverwrite] forall i in 0..len(directoryContents) :: directoryContents[i] != nil && scanlistpos(base(directoryContents), directoryContents[i].Name) == i
 //@   loop 1 invariant[nooverwrite] !s.recomposeUnicode ==> forall j in rangeindex+1..len(directoryContents) :: !has(contents, directoryContents[j].Name)
 //@   loop 1 invariant[nooverwrite] prev(rangeindex) + 1 == rangeindex && (!s.recomposeUnicode ==> forall k string :: prev(has(contents, k)) ==> has(contents, k) && contents[k] == prev(contents[k]))
 //@   loop 1 invariant[utf8] prev(rangeindex) + 1 == rangeindex && (!istempname(scandname(directoryContents, rangeindex)) && !utf8valid(scandname(directoryContents, rangeindex)) ==> len(nonUTF8ContentNames) == prev(len(nonUTF8ContentNames)) + 1 && nonUTF8ContentNames[len(nonUTF8ContentNames) - 1] == scandname(directoryContents, rangeindex) && (forall k string :: has(contents, k) <==> prev(has(contents, k))) && len(contents) == prev(len(contents)))
@@ -197,12 +198,12 @@ package core
 //@   at call (*scanner).directory assert[dirty] arg5 != nil ==> scanisdirty(arg0.dirtyPaths, "")
 //@   loop 1 modifies dirtyPaths[*]
 //@   loop 1 invariant[dirty] dirtyPaths != nil
-//@   loop 1 invariant[dirty] forall p string :: rangevisited(p) ==> scanisdirty(dirtyPaths, p)
+//@   loop 1 invariant[dirty] forall p string :: visited(p) ==> scanisdirty(dirtyPaths, p)
 //@   loop 1 invariant[dirty] forall p string :: scanisdirty(dirtyPaths, p) && p != "" ==> scanisdirty(dirtyPaths, fastpath.fdir(p))
 //@   loop 1 invariant[dirty] forall p string :: scanisdirty(dirtyPaths, p) ==> scanisdirty(dirtyPaths, "")
 //@   loop 2 modifies dirtyPaths[*]
 //@   loop 2 invariant[dirty] dirtyPaths != nil
-//@   loop 2 invariant[dirty] forall p string :: rangevisited(p) ==> scanisdirty(dirtyPaths, p) || p == path
+//@   loop 2 invariant[dirty] forall p string :: visited(p) ==> scanisdirty(dirtyPaths, p) || p == path
 //@   loop 2 invariant[dirty] forall p string :: scanisdirty(dirtyPaths, p) && p != "" ==> scanisdirty(dirtyPaths, fastpath.fdir(p)) || fastpath.fdir(p) == path
 
 // The directory handler. A baseline sub-tree is put into the new snapshot
@@ -236,12 +237,3 @@ package core
 //@   ensures[rootcounts] result3 == nil && fresh(result0) && result0.Content != nil && result0.Content.Kind == EntryKind_File ==> result0.Files == 1 && result0.Directories == 0 && result0.SymbolicLinks == 0
 //@   ensures[rootcounts] result3 == nil && fresh(result0) && result0.Content != nil && result0.Content.Kind == EntryKind_Problematic ==> result0.Files == 0 && result0.Directories == 0 && result0.SymbolicLinks == 0 && result0.TotalFileSize == 0
 //@   ensures[rootcounts] result3 == nil && fresh(result0) && result0.Content == nil ==> result0.Files == 0 && result0.Directories == 0 && result0.SymbolicLinks == 0 && result0.TotalFileSize == 0
-
-// Entry.Copy fills the content map of the copy it is building: the three
-// copying loops write that map only (loop frames for the contract of Copy in
-// zz_contracts_transition_verif.go; a loop that itself writes a heap of an
-// immutable type keeps nothing of it without a frame or an invariant).
-//@ func (*Entry).Copy
-//@   loop 1 modifies result.Contents[*]
-//@   loop 2 modifies result.Contents[*]
-//@   loop 3 modifies result.Contents[*]
